@@ -71,7 +71,8 @@ class C19(core.Check):
     quick_n = 500
     thorough_n = 8000
     rule = ("case = (client on https?, queued requests [(method incl. HEAD, unique path, body, query-argument dict)], servers [(port, tls?, script of responses (status incl. 204/304/102 with Content-Length or Transfer-Encoding, 300/301/302/303/307 with Location (own query string) to "
-            "any server incl. unknown port and scheme change, body, framing length|chunked|until-close|truncated, delay cycles, split points, close-after, number of interim 100 Continue responses sent first 0|1|2|3|10))], how many requests are queued late). "
+            "any server incl. unknown port and scheme change, body, framing length|chunked|until-close|truncated, delay cycles, split points, close-after, number of interim 100 Continue responses sent first 0|1|2|3|10, JSON Content-Type none|3 spellings with UTF-8 / non-UTF-8 / non-JSON bodies))], how many requests are queued late); "
+            "the Client is built on a caller-supplied plain/TLS connector (with or without scheme=), from scheme/hostname/port, or from a full URL; dictable or not. "
             "non-trivial = at least 2 requests and (a redirect, a close, a delay or a split); distinct by request line")
     trusted_base = ["correspondence harness/props/C19.py: compiled model driver vs hio.core.http.clienting.Client over scripted connectors (harness/areas/httpflow.py World)",
                     "translator harness/extract/httpflow.py (redirect status set probed from Respondent.parseHead over every 3-digit code)",
@@ -130,6 +131,10 @@ class C19(core.Check):
             (False, R, [(8101, 0, [(200, None, b"one", 0, 0, [], False, 1), (200, None, b"two", 1, 0, [], False, 2), (200, None, b"three", 0, 0, [], False, 3)])], 0),
             (False, R, [(8101, 0, [(200, None, b"one", 0, 1, [10, 25, 26, 40, 51], False, 10), (302, (0, 8101, b"/r0"), b"", 0, 0, [30], False, 2),
                                    (200, None, b"landed", 0, 0, [], False, 2), (404, None, b"three", 1, 0, [27], True, 3)])], 1),
+            # bodies announced as JSON that are not UTF-8 / not JSON: the entry still arrives and the queue moves on
+            (False, R, [(8101, 0, [(200, None, b'{"a":"\xe9t\xe9"}', 0, 0, [], False, 0, 1), (200, None, b'{"a":"\xc3', 1, 0, [], False, 0, 2),
+                                   (404, None, '{"a":"é"}'.encode("utf-16"), 0, 0, [], False, 1, 3)])], 0),
+            (True, R, [(8101, 1, [(200, None, b'\xef\xbb\xbf{"a":1}', 0, 0, [], False, 0, 1), (200, None, b'\xff', 0, 0, [], False), (200, None, b'[1,2', 0, 0, [], False, 0, 1)])], 0),
             # redirected HEAD (fixed 041b28b): the hop's response carries the entity length and no body
             (False, [(b"HEAD", b"/q0", b"", []), (b"GET", b"/q1", b"", [])],
              [(8101, 0, [(302, (0, 8101, b"/r0"), b"", 0, 0, [], False), ok(b"entity"), ok(b"two")])], 0),
@@ -187,6 +192,7 @@ class C19(core.Check):
             ptrunc = rng.choice([0.0, 0.0, 0.0, 0.05])
             pnobody = rng.choice([0.0, 0.1, 0.3])
             p100 = rng.choice([0.0, 0.0, 0.15, 0.4])
+            pjson = rng.choice([0.0, 0.0, 0.2, 0.5])
             for p in ports:
                 script = []
                 for _ in range(rng.choice([0, 2, 4, 6, 9])):
@@ -220,6 +226,11 @@ class C19(core.Check):
                         resp += (rng.choice([1, 1, 2, 2, 3, 10]),)
                         if rng.random() < 0.5:
                             resp = resp[:5] + (sorted(set(list(cuts) + [rng.choice([1, 12, 25, 26, 30, 50, 51, 60])])),) + resp[6:]
+                    if rng.random() < pjson:
+                        # announced as JSON: valid, latin-1 encoded, cut inside a multi-byte character, with BOM, UTF-16, not JSON at all
+                        jb = rng.choice([b'{"a":"\xc3\xa9","n":[1,2,{"b":null}]}', b'{"a":"\xe9t\xe9"}', b'{"a":"\xc3', b'\xef\xbb\xbf{"a":1}', '{"a":"é"}'.encode("utf-16"),
+                                         b'[1,2', b'', b'\xff\xfe\xfd', b'"caf\xe9"', b'{"k":"v"}', b'[' * 50 + b']' * 50, b'\x80'])
+                        resp = resp[:2] + (jb,) + resp[3:7] + (resp[7] if len(resp) > 7 else 0, rng.choice([1, 1, 2, 3]))
                     script.append(resp)
                 servers.append((p, int(tls[p]), script))
             late = 0 if rng.random() < 0.7 else rng.randrange(1, m + 1)
@@ -236,7 +247,7 @@ class C19(core.Check):
                     sc = list(servers[0][2])
                     st, loc, body, fr, delay, cuts, cl = sc[m - 1][:7]
                     if fr in (0, 1) and st not in (204, 304, 102):
-                        sc[m - 1] = (st, loc, body, 4, delay, cuts, cl) + tuple(sc[m - 1][7:])
+                        sc[m - 1] = (st, loc, body, 4, delay, cuts, False) + tuple(sc[m - 1][7:])
                         servers = [(servers[0][0], servers[0][1], sc)]
                 yield (secure, reqs, servers, late, second, rng.random() < 0.7)       # last: reopen() before the second run, or go on as it is
                 continue
@@ -256,7 +267,7 @@ class C19(core.Check):
             path, q = _tp(l[2])
             return (bool(l[0]), l[1], path, q)
         return ("c19", bool(secure), servers[0][0], [(r[0], r[1], r[2], _qa(r)) for r in reqs],
-                [(port, [(st, loc(l), body, 0 if fr == 4 else fr, bool(fr in (2, 3) or cl), fr == 4)      # 4 = complete response; unsolicited 408 + close if the client is idle afterwards
+                [(port, [(st, loc(l), body, 0 if fr == 4 else fr, bool(fr in (2, 3) or (cl and fr != 4)), fr == 4)      # 4 = complete response; unsolicited 408 + close if the client is idle afterwards
                          for st, l, body, fr, delay, cuts, cl in (r[:7] for r in script)]) for port, sec, script in servers],
                 [(r[0], r[1] or None, r[2], None if (len(r) > 3 and r[3] is None) else _qa(r)) for r in _second(case)],
                 bool(case[5]) if len(case) > 5 else True)
@@ -446,8 +457,17 @@ class C19(core.Check):
         f.append(f"max-history={min(mx, 4)}")
         for s in served:
             f.append("served:" + ("redirect" if s[0] in REDIRECTS and s[1] else "final") + ":" + ["length", "chunked", "until-close", "truncated", "length-then-unsolicited-408"][s[3]] + (":close" if s[4] else ""))
+        f.append("constructed:" + ["connector=", "connector=+scheme=", "scheme/hostname/port", "full-url-path"][hf.c19_kmode(case)] + (":tls" if secure else ":plain"))
+        if (len(reqs) + len(servers)) % 2:
+            f.append("dictable")
         for _, _, sc in servers:
             for r in sc:
+                if len(r) > 8 and r[8]:
+                    try:
+                        r[2].decode("utf-8")
+                        f.append("json-typed-body:utf-8")
+                    except UnicodeDecodeError:
+                        f.append("json-typed-body:not-utf-8")
                 if len(r) > 7 and r[7]:
                     f.append("interim-100-continue=" + ("1" if r[7] == 1 else ("2-3" if r[7] <= 3 else "many")) + (":piecewise" if r[5] else ":one-read"))
         if len({w[0] for w in wire}) > 1:
@@ -492,6 +512,8 @@ class C19(core.Check):
             for j, r in enumerate(script):
                 st, loc, body, fr, delay, cuts, cl = r[:7]
                 x = tuple(r[7:])
+                if len(x) > 1 and x[1]:
+                    yield (secure, reqs, servers[:i] + [(port, sec, script[:j] + [(st, loc, body, fr, delay, cuts, cl, x[0])] + script[j + 1:])] + servers[i + 1:], late)
                 if x and x[0]:
                     yield (secure, reqs, servers[:i] + [(port, sec, script[:j] + [(st, loc, body, fr, delay, cuts, cl)] + script[j + 1:])] + servers[i + 1:], late)
                     if x[0] > 2:
